@@ -127,6 +127,7 @@ PROPS["C04"] = {
         T("SV.replSetup_wellformed", "the leader's side, as stepped against the real replicateTo: every AppendEntries request the replication routine builds is a window of the leader's own log - previous entry = the origin, the snapshot boundary or the stored entry just before nextIndex, entries = the stored entries nextIndex, nextIndex+1, ... without a gap, at most MaxAppendEntries of them and none beyond lastIndex, in the leader's term with the leader's commit index"),
         T("SV.ae_refines_core", "the bridge between the two models for AppendEntries (core fragment: no snapshot, the store holds the entries 1..n, the cached last entry is the store's; request entries numbered from PrevLogEntry+1): the log the handler stepped against raft.go leaves behind is, entry for entry, the log the cluster model's RP.handleAE computes (take prev ++ mergeSuffix (drop prev) entries), and - unless the process dies while applying - it answers success exactly when RP.handleAE does"),
         T("SV.ae_refines_core_commit", "... and the commit index it then reports is the one RP.handleAE computes, max(old, min(LeaderCommitIndex, prev + number of entries)) (from SV.ae_commit_exact)"),
+        T("SV.ae_crash_refines_core", "the crash point: if the stepped handler dies after everything it writes before the final StoreLogs (the truncation done, the new entries not stored), the log it leaves is the log of RP.handleAE at stage 0, take prev ++ truncSuffix (drop prev) entries - so both crash images of the follower's merge are states of the cluster model"),
         T("SV.scan_is_merge", "the entry scan + DeleteRange from the reported conflict + StoreLogs of what the scan asks for is the list merge of the cluster model, for every log 1..n and every request numbered from p+1 (p <= n)"),
         T("SV.prevOk_core", "the previous-entry check of the stepped handler (cached last entry / store lookup) is the cluster model's check (length and term at that position)"),
         T("SV.ae_success_sound", "the stepped model's AppendEntries, every failure and crash ordinal: a success answer implies term >= own, the previous-entry check passed, and every planned write (truncation, staging, storing) was performed before the answer"),
